@@ -1,6 +1,6 @@
 //! C12: layered user dictionaries keep ids, parts of speech and references straight.
 //!
-//! Three kinds of case lines:
+//! Kinds of case lines:
 //!  * `wid`    — `WordId` packing at the boundaries of the 4+28 bit layout;
 //!  * `lexset` — `LexiconSet::{new, append, lookup, get_word_info}` driven directly with real `Lexicon`s parsed from
 //!               compiled dictionaries, arbitrary POS offsets / system POS counts, up to 17 lexicons;
@@ -12,6 +12,8 @@
 //!               load order: InhibitConnection plugins, rows stored with cost i16::MIN (re-estimated by
 //!               `Lexicon::update_cost` over the dictionary as it is when that user dictionary is merged), the cost of
 //!               every word and the inhibited cells after the load.
+//!  * `poslimit` — the merged POS list at the edge of what a `u16` id addresses (finding P2 and its repair): real user dictionaries
+//!               with up to 32 767 own parts of speech, loads with exactly 65 536 / 65 537 / many more entries.
 //! Strings are interned per case (the model only compares them).
 use crate::common::*;
 use crate::dict::*;
@@ -688,6 +690,29 @@ fn impl_pre_variant() -> &'static str {
     })
 }
 
+/// which `JapaneseDictionary::merge_user_dictionary` the tree has (the model's `MergeVariant`): `any` = the pinned one
+/// appends the user dictionary's POS table whatever the size of the merged list (finding P2), `limit` = the repaired one
+/// refuses (InvalidPartOfSpeech) a table that would make the merged list longer than 65 536 entries, before `update_cost`.
+/// Decided by reading the source the harness is built against; `VERIF_C12_MERGE=any|limit` overrides (control runs).
+fn impl_merge_variant() -> &'static str {
+    static P: std::sync::OnceLock<&'static str> = std::sync::OnceLock::new();
+    *P.get_or_init(|| {
+        match std::env::var("VERIF_C12_MERGE").as_deref() { Ok("any") => return "any", Ok("limit") => return "limit", _ => {} }
+        let p = format!("{}/src/dic/dictionary.rs", crate::c07::repo_sudachi_dir());
+        match std::fs::read_to_string(p) {
+            Ok(src) => {
+                let code: String = src.lines().map(|l| l.split("//").next().unwrap_or("")).collect::<Vec<_>>().join("\n");
+                let f = code.split("fn merge_user_dictionary").nth(1).unwrap_or("");
+                let body: String = f.split("\n    fn ").next().unwrap_or("").chars().filter(|c| !c.is_whitespace()).collect();
+                // the test must come before the lexicon is appended
+                let before_append = body.split(".append(").next().unwrap_or("");
+                if before_append.contains("u16::MAX") && before_append.contains("pos_list.len()") { "limit" } else { "any" }
+            }
+            Err(_) => "any",
+        }
+    })
+}
+
 fn gcsv(d: &GDict) -> String {
     let rows: Vec<Row> = d.rows.iter().map(|r| r.row.clone()).collect();
     csv_of(&rows, &pool_vec())
@@ -718,8 +743,8 @@ fn run_stack(run: &mut Run, idx: usize, rng: &mut Rng, directed: Option<usize>) 
         st.conn.iter().map(|pl| pl.iter().map(|(l, r)| format!("{}.{}", l, r)).collect::<Vec<_>>().join(",")).collect::<Vec<_>>().join("|") };
     let costs_wire = std::iter::once(&st.sys).chain(st.users.iter())
         .map(|d| d.rows.iter().map(|r| r.row.cost.to_string()).collect::<Vec<_>>().join(",")).collect::<Vec<_>>().join("|");
-    let payload_head = format!("sysrows={} plug={} base={} pre={} users={} dim={} inh={} costs={}", sys_wire, plug_wire,
-        if st.base_plug { "plug" } else { "sys" }, impl_pre_variant(), users_wire, st.n_ids, inh_wire, costs_wire);
+    let payload_head = format!("sysrows={} plug={} base={} pre={} mv={} users={} dim={} inh={} costs={}", sys_wire, plug_wire,
+        if st.base_plug { "plug" } else { "sys" }, impl_pre_variant(), impl_merge_variant(), users_wire, st.n_ids, inh_wire, costs_wire);
     run.bump(&format!("stack:connplugins:{}", st.conn.len()));
     let n_min: usize = st.users.iter().map(|u| u.rows.iter().filter(|r| r.row.cost == -32768).count()).sum();
     run.bump(&format!("stack:min-cost-rows:{}", n_min.min(4)));
@@ -727,6 +752,7 @@ fn run_stack(run: &mut Run, idx: usize, rng: &mut Rng, directed: Option<usize>) 
     run.bump(&format!("stack:plugcalls:{}", st.plug.calls.len()));
     run.bump(if st.base_plug { "stack:base:plug" } else { "stack:base:sys" });
     run.bump(&format!("stack:pre:{}", impl_pre_variant()));
+    run.bump(&format!("stack:mv:{}", impl_merge_variant()));
     let desc = format!("users={} base={} texts={:?}", k, if st.base_plug { "plug" } else { "sys" }, st.texts);
 
     // --- real pipeline
@@ -1061,6 +1087,192 @@ fn run_stack(run: &mut Run, idx: usize, rng: &mut Rng, directed: Option<usize>) 
     let _ = tag_of_raw;
 }
 
+// ------------------------------------------------------------------------------------------------ poslimit
+
+/// POS of table `t` (0 = system dictionary, 1 = registered by OOV plugins, 2 + u = own table of user dictionary u), entry `i`
+fn syn_pos(t: usize, i: usize) -> [String; 6] {
+    ["名詞".into(), format!("T{}", t), format!("P{}", i), "*".into(), "*".into(), "*".into()]
+}
+
+/// inverse of `syn_pos` on the strings the loaded grammar reports
+fn syn_pos_name(p: &[String]) -> String {
+    if p.len() == 6 && p[0] == "名詞" && p[1].starts_with('T') && p[2].starts_with('P') { format!("{}.{}", &p[1][1..], &p[2][1..]) } else { "?".into() }
+}
+
+/// one dictionary whose row `i` is a word with the POS `syn_pos(t, i)`: as many parts of speech as rows
+fn syn_rows(t: usize, n: usize, prefix: &str) -> (Vec<Row>, Vec<[String; 6]>) {
+    let pool: Vec<[String; 6]> = (0..n).map(|i| syn_pos(t, i)).collect();
+    let rows = (0..n).map(|i| {
+        let mut r = Row::simple(&format!("{}{}", prefix, i), 0, 0, 100, i);
+        r.reading = "ア".into();
+        r
+    }).collect();
+    (rows, pool)
+}
+
+/// the dictionaries of the `poslimit` cases, compiled once per process by the real `DictBuilder`: a system dictionary with ONE part
+/// of speech and user dictionaries compiled against it with as many own parts of speech as rows — 32 767 is the most the builder
+/// allows next to one system POS (`MAX_POS_IDS`: 32 768 entries in its map), so TWO of them plus the system POS plus one POS
+/// registered by an OOV plugin make exactly 65 536 entries
+struct PosWorld {
+    system: Vec<u8>,
+    bins: Vec<Vec<u8>>,
+    sizes: Vec<usize>,
+}
+
+const POSLIMIT_S: usize = 1;
+const POSLIMIT_BIG: usize = 5;
+
+fn pos_world() -> &'static Result<PosWorld, (String, String)> {
+    static W: std::sync::OnceLock<Result<PosWorld, (String, String)>> = std::sync::OnceLock::new();
+    W.get_or_init(|| {
+        let s = POSLIMIT_S;
+        let sizes: Vec<usize> = vec![32768 - s, 32768 - s, 32768 - s, 32767 - s, 32761 - s, 5, 2, 1];
+        let wd = Workdir::new("c12pw");
+        let (srows, spool) = syn_rows(0, s, "s");
+        let system = build_system(csv_of(&srows, &spool).as_bytes(), "1 1\n0 0 0\n".as_bytes())
+            .map_err(|e| ("harness:poslimit-build".to_string(), format!("system dictionary does not compile: {}", e)))?;
+        let base_cfg = config_json(&wd, &[], &[format!(
+            r#"{{"class":"com.worksap.nlp.sudachi.SimpleOovPlugin","oovPOS":{},"leftId":0,"rightId":0,"cost":30000}}"#,
+            pos_json(&syn_pos(0, 0).to_vec()))], &[], &[]);
+        let base = load(&base_cfg, system.clone(), vec![])
+            .map_err(|e| ("harness:poslimit-build".to_string(), format!("system dictionary does not load: {}", e)))?;
+        let mut bins: Vec<Vec<u8>> = vec![];
+        for (u, n) in sizes.iter().enumerate() {
+            let (rows, pool) = syn_rows(2 + u, *n, &format!("u{}w", u));
+            let bin = build_user(&base, csv_of(&rows, &pool).as_bytes())
+                .map_err(|e| ("harness:poslimit-build".to_string(), format!("user dictionary {} ({} rows, {} own POS) does not compile: {}", u, n, n, e)))?;
+            // what the model is told about the binary, checked on the binary alone: own table = syn_pos(2+u, 0..n), word w stored with id S + w
+            let ok = catch(|| -> bool {
+                let dl = match DictionaryLoader::read_user_dictionary(&bin) { Ok(d) => d, Err(_) => return false };
+                let own_ok = match &dl.grammar { Some(g) => g.pos_list.len() == *n && g.pos_list.iter().enumerate().all(|(i, p)| p[..] == syn_pos(2 + u, i)[..]), None => false };
+                let mut lex = dl.lexicon;
+                lex.set_dic_id(0);
+                own_ok && lex.size() as usize == *n && (0..*n).all(|w| matches!(lex.get_word_info(w as u32, InfoSubset::POS_ID), Ok(wi) if wi.pos_id() as usize == s + w))
+            });
+            if ok != Ok(true) {
+                return Err(("harness:poslimit-layout".to_string(), format!("user dictionary {}: own POS table / stored ids are not the expected ones", u)));
+            }
+            bins.push(bin);
+        }
+        Ok(PosWorld { system, bins, sizes })
+    })
+}
+
+/// Finding P2 / its repair: the merged POS list at the edge of what a `u16` id can address.  One load = one case line
+/// (`C12 poslimit`): the model gets the sizes, the real code gets the real dictionaries.  `q` OOV plugins each register one new POS
+/// (userPOS allow; the last one is the fallback provider), `order` = the user dictionaries of `pos_world` in load order.
+fn poslimit_load(run: &mut Run, idx: usize, rng: &mut Rng, w: &PosWorld, wd: &Workdir, q: usize, order: &[usize], name: &str) {
+    const S: usize = POSLIMIT_S;
+    let oov: Vec<String> = (0..q).map(|k| format!(
+        r#"{{"class":"com.worksap.nlp.sudachi.SimpleOovPlugin","oovPOS":{},"leftId":0,"rightId":0,"cost":{},"userPOS":"allow"}}"#,
+        pos_json(&syn_pos(1, k).to_vec()), 20000 + k)).collect();
+    let cfg = config_json(wd, &[], &oov, &[], &[]);
+    let users: Vec<Vec<u8>> = order.iter().map(|u| w.bins[*u].clone()).collect();
+    let ns: Vec<usize> = order.iter().map(|u| w.sizes[*u]).collect();
+    let tabs: Vec<usize> = order.iter().map(|u| 2 + *u).collect();
+    let total: usize = S + q + ns.iter().sum::<usize>();
+    // queried words: first / middle / last of every dictionary, the words around entries 65535 / 65536 (and 131071 / 131072), a few random ones
+    let mut qs: Vec<(usize, usize)> = vec![(0, 0)];
+    let mut start = S + q;
+    for (d, n) in ns.iter().enumerate() {
+        let mut ws = vec![0, 1, n / 2, n.saturating_sub(2), n - 1];
+        for edge in [65534usize, 65535, 65536, 65537, 131071, 131072] { if edge >= start && edge - start < *n { ws.push(edge - start); } }
+        for _ in 0..2 { ws.push(rng.below(*n)); }
+        ws.sort(); ws.dedup();
+        for w in ws { if w < *n { qs.push((d + 1, w)); } }
+        start += n;
+    }
+    let payload = format!("mv={} s={} q={} users={} tabs={} w={}", impl_merge_variant(), S, q, join(ns.iter(), ","), join(tabs.iter(), ","),
+        qs.iter().map(|(d, w)| format!("{}.{}", d, w)).collect::<Vec<_>>().join(","));
+    run.bump(&format!("poslimit:{}", name));
+    run.bump(&format!("poslimit:mv:{}", impl_merge_variant()));
+    run.bump(if total < 65536 { "poslimit:entries:below-65536" } else if total == 65536 { "poslimit:entries:65536" } else if total == 65537 { "poslimit:entries:65537" } else { "poslimit:entries:above-65537" });
+    let t1 = std::time::Instant::now();
+    let loaded = load(&cfg, w.system.clone(), users);
+    if std::env::var("VERIF_DEBUG").is_ok() { eprintln!("poslimit {}: load {:?} total POS {}", name, t1.elapsed(), total); }
+    let desc = format!("{}: system POS {}, plugin POS {}, user dictionaries with {:?} own POS: {} entries", name, S, q, ns, total);
+    let dic = match loaded {
+        Ok(d) => d,
+        Err(e) => {
+            let ans = load_kind(&e);
+            run.bump(&format!("poslimit:outcome:{}", ans));
+            run.case(idx, "poslimit", &payload, &ans, true);
+            // oracle: a load error is an acceptable answer only for a list no u16 id can address (or a 15th dictionary)
+            if ans == "err:Load:TooManyDictionaries" && order.len() >= 15 {
+            } else if total <= 65536 {
+                run.fail(idx, "load:pos-limit-below-u16", &format!("load failed ({}) although the merged POS list has {} <= 65536 entries | {}", e, total, desc));
+            } else if ans != "err:Load:InvalidPos" {
+                run.fail(idx, "load:unexpected-error", &format!("{} | {}", e, desc));
+            }
+            return;
+        }
+    };
+    run.bump("poslimit:outcome:loaded");
+    let pos_list: &Vec<Vec<String>> = &dic.grammar().pos_list;
+    let mut wl = vec![];
+    let mut bad: Option<(String, String)> = None;
+    for (d, w) in &qs {
+        // the specification: the CSV row — word w of dictionary d was declared with syn_pos(table of d, w)
+        let table = if *d == 0 { 0 } else { tabs[*d - 1] };
+        let declared = syn_pos(table, *w);
+        // where the loader puts that entry: after the system and plugin POS and the tables of the earlier dictionaries
+        let position = if *d == 0 { *w } else { S + q + ns[..*d - 1].iter().sum::<usize>() + *w };
+        match catch(|| dic.lexicon().get_word_info(WordId::new(*d as u8, *w as u32)).map(|wi| wi.pos_id())) {
+            Ok(Ok(id)) => {
+                let got = pos_list.get(id as usize);
+                wl.push(format!("{}.{}:{}:{}", d, w, id, match got { Some(p) => syn_pos_name(p), None => "OOB".into() }));
+                if bad.is_none() && got.map(|p| &p[..]) != Some(&declared[..]) {
+                    // the key names the finding only when the wrong answer IS the u16 wrap: the entry lies beyond 65535 and the id is
+                    // its position modulo 65536; any other wrong part of speech here is a new violation
+                    let wrapped = position >= 65536 && id as usize == position % 65536;
+                    bad = Some((if wrapped { "pos:word:u16-wrap".into() } else { "pos:word:poslimit".into() },
+                        format!("dictionary {} word {}: POS id {} = {:?}, declared {:?} (entry {} of the merged list of {}) | {}", d, w, id, got, declared, position, pos_list.len(), desc)));
+                }
+            }
+            Ok(Err(e)) => { wl.push(format!("{}.{}:err", d, w)); if bad.is_none() { bad = Some(("word:unreadable:poslimit".into(), format!("dictionary {} word {}: {:?} | {}", d, w, e, desc))); } }
+            Err(_) => { wl.push(format!("{}.{}:PANIC", d, w)); if bad.is_none() { bad = Some(("word:unreadable:poslimit".into(), format!("dictionary {} word {} panics | {}", d, w, desc))); } }
+        }
+    }
+    let ans = format!("ok n={} w={}", pos_list.len(), wl.join(";"));
+    run.case(idx, "poslimit", &payload, &ans, true);
+    if pos_list.len() != total {
+        run.fail(idx, "pos:list-length:poslimit", &format!("the merged POS list has {} entries, expected {} | {}", pos_list.len(), total, desc));
+    }
+    if let Some((key, what)) = bad { run.fail(idx, &key, &what); }
+}
+
+fn run_poslimit(run: &mut Run, idx: usize, rng: &mut Rng, directed: bool) {
+    let w = match pos_world() {
+        Ok(w) => w,
+        Err((key, what)) => { run.fail_with_line(idx, "", key, what); return; }
+    };
+    let wd = Workdir::new(&format!("c12p-{}", idx));
+    if directed {
+        // user dictionaries 0 and 1 have 32767 own POS each, dictionary 5 has five
+        let loads: [(usize, Vec<usize>, &str); 6] = [
+            (1, vec![0, 1], "at-limit"),            // 1 + 1 + 2 * 32767 = 65536: the last word has id 65535
+            (2, vec![0, 1], "plugin-pos-over"),     // 65537: the last own POS of the second dictionary is entry 65536
+            (1, vec![0, 1, 5], "third-over"),       // 65541: the five POS of the small third dictionary are entries 65536..65540
+            (1, vec![5, 0, 1], "last-over"),        // 65541: the second big dictionary ends beyond the limit
+            (1, vec![0, 5], "below"),               // 32774
+            (3, vec![0, 1, 2, 5], "twice-over"),    // 98310: far beyond; entries 65536.. of two dictionaries
+        ];
+        for (q, order, name) in loads.iter() { poslimit_load(run, idx, rng, w, &wd, *q, order, name); }
+    } else {
+        let q = rng.range(1, 4);
+        let nb = *rng.pick(&[1usize, 2, 2, 2, 2, 3, 4]);
+        let nsmall = rng.below(4);
+        let mut bigs: Vec<usize> = (0..POSLIMIT_BIG).collect();
+        for i in (1..bigs.len()).rev() { let j = rng.below(i + 1); bigs.swap(i, j); }
+        let mut smalls: Vec<usize> = (POSLIMIT_BIG..w.sizes.len()).collect();
+        for i in (1..smalls.len()).rev() { let j = rng.below(i + 1); smalls.swap(i, j); }
+        let mut order: Vec<usize> = bigs[..nb].iter().chain(smalls[..nsmall.min(smalls.len())].iter()).cloned().collect();
+        for i in (1..order.len()).rev() { let j = rng.below(i + 1); order.swap(i, j); }
+        poslimit_load(run, idx, rng, w, &wd, q, &order, "generated");
+    }
+}
+
 // ------------------------------------------------------------------------------------------------ wid
 
 fn run_wid(run: &mut Run, idx: usize, rng: &mut Rng, directed: Option<usize>) {
@@ -1315,13 +1527,18 @@ every word through LexiconSet::get_word_info and 2-3 texts tokenised in mode C w
 (about half of the cases on one recycled StatefulTokenizer + MorphemeList + split lists that analysed 1-4 other texts before each text: empty, too long, longer, shorter, other modes, uncollected); \
 load order: 0-2 InhibitConnection plugins, rows stored with cost i16::MIN whose estimate is measured on the really loaded prefix dictionary, word costs and inhibited cells observed after the load; \
 lexset: LexiconSet::new/append/lookup/get_word_info on 1..17 real lexicons with arbitrary POS offsets; wid: WordId packing at the 4/28-bit \
-boundaries; grammar: get_part_of_speech_id / register_pos called directly (handle_user_pos is crate-private: reached through the plugins of the stack cases) on a real Grammar (POS of 5, 6, 7 components). non-trivial = stack with >= 1 user dictionary using a POS the system dictionary does not have, lexset with >= 1 appended \
+boundaries; poslimit (1 directed world with 6 loads + 1 case in 64): a system dictionary with one POS and real user dictionaries with 32767 / 32766 / 32760 / 5 / 2 / 1 own POS \
+(compiled once per process) loaded in random order under 1-4 POS-registering OOV plugins, so that the merged POS list has exactly 65536, 65537 or up to 131 000 entries; \
+words at the ends of every dictionary and around entries 65535/65536 read through LexiconSet::get_word_info, judged against their CSV rows \
+(finding P2 / its repair: a list no u16 id can address must be refused at load, never answered with a wrapped id); grammar: get_part_of_speech_id / register_pos called directly (handle_user_pos is crate-private: reached through the plugins of the stack cases) on a real Grammar (POS of 5, 6, 7 components). non-trivial = stack with >= 1 user dictionary using a POS the system dictionary does not have, lexset with >= 1 appended \
 lexicon, every wid; distinct by line".into();
     run.extra.insert("variant_preload_pos".into(), serde_json::json!(impl_pre_variant()));
+    run.extra.insert("variant_merge_user_dictionary".into(), serde_json::json!(impl_merge_variant()));
     let n = run.opts.count;
     const DIRECTED_STACK: usize = 8;
     const DIRECTED_LEXSET: usize = 4;
     const DIRECTED_WID: usize = 99;
+    const DIRECTED_POSLIMIT: usize = 1;
     for idx in 0..n {
         if !run.wants(idx) { continue; }
         let mut rng = Rng::for_case(run.opts.seed, idx);
@@ -1331,8 +1548,11 @@ lexicon, every wid; distinct by line".into();
             run_lexset(run, idx, &mut rng, Some(idx - DIRECTED_STACK));
         } else if idx < DIRECTED_STACK + DIRECTED_LEXSET + DIRECTED_WID {
             run_wid(run, idx, &mut rng, Some(idx - DIRECTED_STACK - DIRECTED_LEXSET));
+        } else if idx < DIRECTED_STACK + DIRECTED_LEXSET + DIRECTED_WID + DIRECTED_POSLIMIT {
+            run_poslimit(run, idx, &mut rng, true);
         } else {
             match idx % 8 {
+                _ if idx % 64 == 37 => run_poslimit(run, idx, &mut rng, false),
                 0 => if idx % 16 == 0 { run_wid(run, idx, &mut rng, None) } else { run_grammar(run, idx, &mut rng) },
                 1 => run_lexset(run, idx, &mut rng, None),
                 _ => run_stack(run, idx, &mut rng, None),
